@@ -339,6 +339,39 @@ def _keepalive_guard(repo):
     return "self.__need_rekey" in srcs, "not self.__block_engine_out" in srcs
 
 
+def _gate_releases(f):
+    """_send_user_message: inside the wait loop, between `clear_to_send_lock.acquire()` and the matching
+    `release()` the only way out is `if self.clear_to_send.is_set(): break` (left holding the lock on purpose:
+    the send that follows sits in try/finally release); no raise / return / continue happens with the lock held."""
+    loops = [st for st in f.body if isinstance(st, ast.While)]
+    if len(loops) != 1:
+        return False
+    body = loops[0].body
+
+    def is_call(st, what):
+        return isinstance(st, ast.Expr) and isinstance(st.value, ast.Call) and \
+            ast.unparse(st.value.func) == "self.clear_to_send_lock." + what
+
+    acq = [i for i, st in enumerate(body) if is_call(st, "acquire")]
+    rel = [i for i, st in enumerate(body) if is_call(st, "release")]
+    if len(acq) != 1 or len(rel) != 1 or rel[0] < acq[0]:
+        return False
+    for st in body[acq[0] + 1:rel[0]]:
+        if isinstance(st, ast.If) and ast.unparse(st.test) == "self.clear_to_send.is_set()" \
+                and len(st.body) == 1 and isinstance(st.body[0], ast.Break) and not st.orelse:
+            continue
+        return False        # anything else between acquire and release (raise, return, calls that may raise)
+    # nested acquire / release elsewhere in the loop would escape this scan
+    n_acq = len(_calls(loops[0], "self.clear_to_send_lock.acquire"))
+    n_rel = len(_calls(loops[0], "self.clear_to_send_lock.release"))
+    if n_acq != 1 or n_rel != 1:
+        return False
+    # after the loop: the send is in a try whose finally releases the lock
+    tail = [st for st in f.body[f.body.index(loops[0]) + 1:]]
+    return (len(tail) == 1 and isinstance(tail[0], ast.Try) and bool(_calls(tail[0], "self._send_message"))
+            and any(is_call(x, "release") for x in tail[0].finalbody))
+
+
 def _saved_before_send(f):
     """_send_kex_init records local_kex_init (what _negotiate_keys tests to tell who started the exchange) before
     the KEXINIT is handed to the packetizer"""
@@ -518,6 +551,7 @@ def tables(repo):
         "locked_sends": locked,
         "gate_waits": _gate_shape(idx[("Transport", "_send_user_message")]),
         "kexinit_clears_first": _clears_first(idx[("Transport", "_send_kex_init")], ["self._send_message"]),
+        "gate_releases_on_every_exit": _gate_releases(idx[("Transport", "_send_user_message")]),
         "kexinit_saved_before_send": _saved_before_send(idx[("Transport", "_send_kex_init")]),
         "negotiate_clears_first": _clears_first(idx[("Transport", "_negotiate_keys")],
                                                 ["self._send_kex_init", "self._parse_kex_init"]),
@@ -567,7 +601,7 @@ def generate(repo):
     out.append("(* Packetizer._check_keepalive returns early while need_rekey is set / before encryption is on *)")
     out.append("Definition keepalive_need_guard : bool := %s." % _b(f["keepalive_need_guard"]))
     out.append("Definition keepalive_cipher_guard : bool := %s." % _b(f["keepalive_cipher_guard"]))
-    for k in ("gate_waits", "kexinit_saved_before_send", "kexinit_clears_first", "negotiate_clears_first", "newkeys_sets",
+    for k in ("gate_waits", "gate_releases_on_every_exit", "kexinit_saved_before_send", "kexinit_clears_first", "negotiate_clears_first", "newkeys_sets",
               "flag_set_only_in_newkeys", "send_message_is_packetizer"):
         out.append("Definition %s : bool := %s." % (k, _b(f[k])))
     out.append("(* public Transport/Channel methods that call _send_message directly: %s *)" % (f["public_ungated"] or "none"))
